@@ -155,6 +155,8 @@ class Session:
             if op == "setitem":
                 n = safe_nrow(d) if d else len(e["col"])
                 v = value(e["col"], n) if (len(e["col"]) in (1, n) or not d) else P.concrete(e["col"])
+                if e.get("twod"):
+                    v = di.DataFrameColumn(P.vector(e["col"], typed=True))[:, None]      # shape (n, 1), still a DataFrameColumn
                 if e.get("via") == "attr":
                     setattr(d, e["name"], v)
                 elif e.get("via") == "setdefault":
@@ -277,6 +279,8 @@ def random_event(rng, s, pal, focus=None):
     elif op == "setitem":
         ln = rng.choice([1, 1, n, n, n + 1, 2, 0])
         e.update({"name": rng.choice(cols + ["x", "y", "items", "a b"]) if cols else "x", "col": rand_cells(rng, ln, pal)})
+        if ln == n and n >= 1 and rng.random() < 0.12:
+            e["twod"] = True
         r = rng.random()
         if e["name"].isidentifier() and e["name"] not in ("items", "sort") and r < 0.4:
             e["via"] = "attr"
